@@ -14,6 +14,7 @@ TB = [
     "kreport / bioboxes / human number formatting is modelled exactly (fmul, int(), '%.2f' / '%.1f' as round-half-even of the exact binary value: CPython's float formatting is assumed correctly rounded); multi-query runs are modelled (one gather CSV per query, krona / lineage_summary / csv_summary aggregation)",
     "the writers are modelled as operations on ONE shared QueryTaxResult (make_full_summary / make_human_summary sort the per-rank lists in place; kreport, bioboxes, krona, lineage_summary read them): the stream runs random sequences of writers on one object and requires each output to equal the same writer's output on a fresh object, and runs `tax metagenome -F <random subset / thorough: every subset>` comparing every file with the in-process writer run in the command's own order",
     "load_gather_results' grouping of CSV rows into one result per query is modelled as the code does it (dictionary lookup by query name, first-appearance order, a query arriving in a second file refused, empty file refused, per-row --fail-on-missing-taxonomy); multi-query cases are delivered as one CSV per query AND as one CSV with the queries' rows interleaved / shuffled, as several CSVs, with a query split over files, with a repeated row, with an empty CSV; the oracle sums each query's rows by query name independently of the loader; gather CSVs with essential or optional columns removed are covered (op dropcols)",
+    "periphery: the adapter alternates, under a per-case counter the model does not see, equivalent spellings and file shapes (taxonomy id column ident/identifiers/accession, extra and reordered columns, taxpath taxids, gather name/match_name, MultiLineageDB.load vs LineageDB.load+add, check_and_load_gather_csvs(list|str) vs load_gather_results, summarize_up_ranks+build vs build); asserts after every build / classification that the views of the object agree (totals vs entries, sums vs entries, classification vs its summary/human/krona rows); keeps every result object and re-verifies all of them at the end of the case (xrecheck); one QueryTaxResult is re-summarised / re-classified / written repeatedly (snew, sbuild, scls + writers) with every writer compared with a fresh object; further routes as oracle-checked ops: tax annotate + with-lineages taxonomy, sqlite taxonomy, lingroup report, genome --lingroup, CLI --from-file / duplicated -g / --force with a bad file / stdout output",
     "csv module, FileInputCSV, argparse; ANI estimation (containment_to_distance) is not modelled (property C17)",
 ]
 AS = [
